@@ -22,7 +22,7 @@ class C12(PropertyCheck):
         return out
 
     def generate(self, rng, tier):
-        n = 500 if tier == "quick" else 4000
+        n = 3000 if tier == "quick" else 30000
         cases = fsgen.gen_cases(rng, tier, "c12", n, "histories")
         for g in range(7):
             for l in range(8):
@@ -40,6 +40,9 @@ class C12(PropertyCheck):
             return cfg_oracle(case.line, impl_out)
         _, c = fsgen.parse_case(case.line)
         return fsgen.check_history(c, impl_out)
+
+    def agree(self, case, impl_out, model_out, profile):
+        return fsgen.agree(impl_out, model_out)
 
     def shrink_candidates(self, case):
         if case.line.startswith("fscfg"):
